@@ -152,6 +152,7 @@ pub fn table_vs_reference(cx: &Cx, rep: &mut Report, ct: &CmpTables, t: usize, p
 
 /// gate: attribute a must be recognised whenever a derived trait among `own` is affected by it
 pub fn gate_check(cx: &Cx, rep: &mut Report, own: &[usize], prefix: &str) -> Option<GateModel> {
+    crate::misc::kinds_filled_rule(cx, rep);
     match gate_model(&cx.ix) {
         Err(e) => { rep.fail("unanalysable", "gate", "gate-model", &e, "item_type.rs HelperAttributeKinds", json!({})); None }
         Ok(g) => {
@@ -220,6 +221,7 @@ pub fn c17(cx: &Cx) -> i32 {
 }
 
 fn all_tables(cx: &Cx, rep: &mut Report) -> (CmpTables, Option<GateModel>) {
+    crate::misc::kinds_filled_rule(cx, rep);
     let traits: Vec<usize> = (0..5).collect();
     let ct = cmp_models(cx, rep, &traits, "", false);
     let g = match gate_model(&cx.ix) { Ok(g) => Some(g), Err(e) => { rep.fail("unanalysable", "gate", "gate-model", &e, "-", json!({})); None } };
